@@ -2,10 +2,11 @@
     member nodes and a healthy container.  Only statements closed by [exact].
 
     Reading guide.  [children_of h o l] (SortProofs.v) says: object node [o] is live, its [child]
-    field is the head of [l], the ids [l] are pairwise distinct live nodes whose keys are live
-    zero-terminated string blocks, and the link map of the heap agrees on [l] with the canonical
-    links [slinks l] of the cJSON sibling convention (next forward, prev backward, head.prev = tail,
-    tail.next = NULL; same definition as Forest.links).  [keyof h x] is the C string that is the
+    field is the head of [l], the ids [l] are pairwise distinct, the link map of the heap agrees on
+    [l] with the canonical links [slinks l] of the cJSON sibling convention (next forward, prev
+    backward, head.prev = tail, tail.next = NULL; [slinks = Forest.links], SortForest.v) — these
+    four are [children_shape] — and the [l] are live nodes whose keys are live zero-terminated
+    string blocks ([node_ok]).  [keyof h x] is the C string that is the
     key of node [x]; [key_le cs] is "compare_strings <= 0" for the variant ([cs = true]: byte order,
     [cs = false]: ASCII-case-folded order); [sort_spec cs] is the stable insertion sort of
     (node, key) pairs by that order.  [sort_object fuel (Some o) cs] is the transliteration of
@@ -70,8 +71,36 @@ Theorem C19_sort_list : forall h cs fuel l m,
   exists m', sort_list fuel (head l) cs (with_lnk h m) = Ret (head (isort (hle h cs) l), with_lnk h m') /\
              chain m' (isort (hle h cs) l) /\
              (forall z, z ∉ l -> m' !! z = m !! z).
-Proof. exact sort_list_spec. Qed.
+Proof. exact sort_list_correct. Qed.
 Print Assumptions C19_sort_list.
+
+(** Members whose key is NULL (put into the object with the array API): [children_of0] is
+    [children_of] with "key is NULL or a readable string".  The call still returns normally, the
+    children afterwards are a permutation of the same nodes, and the heap encodes them canonically,
+    so the object stays a healthy container.  (Sortedness and idempotence are NOT claimed: see
+    C19_null_key_alternates.) *)
+Theorem C19_any_keys_safe_healthy : forall h o l cs fuel,
+  children_of0 h o l -> (sort_fuel (length l) <= fuel)%nat ->
+  exists h' l' d,
+    sort_object fuel (Some o) cs h = Ret (tt, h') /\
+    Permutation l' l /\
+    children_of0 h' o l' /\
+    (forall z, z ∉ l -> h_lnk h' !! z = h_lnk h !! z) /\
+    h_dat h !! o = Some d /\
+    h' = mkHeap (h_lnk h') (<[o := nd_set_child d (head l')]> (h_dat h)) (h_str h) (h_own h) (h_live h)
+                (h_next h) (h_req h) (h_hooks h) (h_trace h).
+Proof. exact sort_object_any_keys. Qed.
+Print Assumptions C19_any_keys_safe_healthy.
+
+(** The hypothesis "keys are strings" of C19_sorted_perm / C19_idempotent is necessary: on the
+    object {NULL:0, "a":1} (member nodes 2 and 3) every call swaps the two members, because
+    compare_strings answers 1 whenever a side is NULL.  (A finite computation on the model.) *)
+Theorem C19_null_key_alternates :
+  exists r, run_sort_case true ex_null_obj = Ret r /\
+            sr_before r = [2; 3]%positive /\ sr_after r = [3; 2]%positive /\ sr_after2 r = [2; 3]%positive /\
+            sr_healthy r = true /\ sr_healthy2 r = true.
+Proof. exact ex_null_key_alternates. Qed.
+Print Assumptions C19_null_key_alternates.
 
 (** The specification itself: a permutation, sorted, stable, idempotent. *)
 Theorem C19_spec_perm : forall cs l, Permutation (sort_spec cs l) l.
